@@ -430,7 +430,7 @@ def run_history(rec, tap, rng, cid):
         op = ("prep", copy.deepcopy(PIPES[int(rng.integers(1, len(PIPES)))]),
               {})
         hist.append((op, apply_op(idnt, op)))
-    if rng.random() < .9:
+    if True:
         # keep plateau scans short (default is 100 optimisations per scan)
         op = ("edit", {"optimal_fit_num_samples": int(rng.choice([7, 9]))})
         hist.append((op, apply_op(idnt, op)))
